@@ -431,13 +431,7 @@ def new_lambda_array(s, elem, dtype, n, fn, name='lam'):
         s.heap[arr.base.id] = tuple(_coerce(elem, fn(SInt(k))) for k in range(n.v))
         return arr
     base = Base(elem, dtype, (n,), 'sym', name)
-    i = z3.Const(fresh_name('li'), int_sort())
-    v = _coerce(elem, fn(SInt(i)))
-    if elem == 'float':
-        content = {'val': z3.Lambda([i], v.val), 'tag': None if v.known_finite else z3.Lambda([i], v.ztag())}
-    else:
-        content = {'val': z3.Lambda([i], v.z()), 'tag': None}
-    s.heap[base.id] = content
+    s.heap[base.id] = st.fn_content(lambda idx, fn=fn, elem=elem: _coerce(elem, fn(idx[0])))
     return st.full_view(base)
 
 
@@ -508,14 +502,7 @@ def new_lambda_array2(s, elem, dtype, r, c, fn, name='lam2'):
         s.heap[arr.base.id] = tuple(_coerce(elem, fn(SInt(i), SInt(j))) for i in range(r.v) for j in range(c.v))
         return arr
     base = Base(elem, dtype, (r, c), 'sym', name)
-    i = z3.Const(fresh_name('li'), int_sort())
-    j = z3.Const(fresh_name('lj'), int_sort())
-    v = _coerce(elem, fn(SInt(i), SInt(j)))
-    if elem == 'float':
-        content = {'val': z3.Lambda([i, j], v.val), 'tag': None if v.known_finite else z3.Lambda([i, j], v.ztag())}
-    else:
-        content = {'val': z3.Lambda([i, j], v.z()), 'tag': None}
-    s.heap[base.id] = content
+    s.heap[base.id] = st.fn_content(lambda idx, fn=fn, elem=elem: _coerce(elem, fn(idx[0], idx[1])))
     return st.full_view(base)
 
 
@@ -655,50 +642,50 @@ def copy_into(eng, s, fr, tgt, v, lineno=0):
         return
     if base.kind != 'sym':
         raise Unsupported("symbolic-extent store into concrete-shape array")
-    js = [z3.Const(fresh_name('sj'), int_sort()) for _ in base.shape]
-    cond = SBool(True)
-    ks = []
-    for d, j in zip(tgt.dims, js):
-        jj = SInt(j)
-        if d[0] == 'fix':
-            cond = cond & (jj == d[1])
-        else:
-            _, off, stride, n = d
-            if stride.concrete and stride.v == 1:
-                k = jj - off
-                cond = cond & (k >= 0) & (k < n)
-            elif stride.concrete and stride.v > 1:
-                k = (jj - off) // stride.v
-                cond = cond & (jj >= off) & (((jj - off) % stride.v) == 0) & (k < n)
-            elif stride.concrete and stride.v < 0:
-                m = -stride.v
-                k = (off - jj) // m
-                cond = cond & (jj <= off) & (((off - jj) % m) == 0) & (k < n)
+    old_read = st.content_reader(base, s.heap[base.id])
+    dims = tgt.dims
+
+    def locate(idx):
+        """(condition that base cell idx belongs to the target view, its logical indices)"""
+        cond = SBool(True)
+        ks = []
+        for d, jj in zip(dims, idx):
+            if d[0] == 'fix':
+                cond = cond & (jj == d[1])
             else:
-                raise Unsupported("symbolic stride store")
-            ks.append(k)
-    val = _value_at(eng, s, v, ks, snap)
-    val = st.coerce_elem(base, val, None)
-    old = s.heap[base.id]
-    new = dict(old)
-    zi = js
-    cz = cond.z()
-    if base.elem == 'float':
-        new['val'] = z3.Lambda(js, z3.If(cz, val.val, z3.Select(old['val'], *zi)))
-        if old['tag'] is None and val.known_finite:
-            new['tag'] = None
-        else:
-            ot = old['tag'] if old['tag'] is not None else st._const_array([int_sort()] * len(js), z3.IntVal(FIN))
-            new['tag'] = z3.Lambda(js, z3.If(cz, val.ztag(), z3.Select(ot, *zi)))
-    else:
-        new['val'] = z3.Lambda(js, z3.If(cz, val.z(), z3.Select(old['val'], *zi)))
-    s.heap[base.id] = new
+                _, off, stride, n = d
+                if stride.concrete and stride.v == 1:
+                    k = jj - off
+                    cond = cond & (k >= 0) & (k < n)
+                elif stride.concrete and stride.v > 1:
+                    k = (jj - off) // stride.v
+                    cond = cond & (jj >= off) & (((jj - off) % stride.v) == 0) & (k < n)
+                elif stride.concrete and stride.v < 0:
+                    m = -stride.v
+                    k = (off - jj) // m
+                    cond = cond & (jj <= off) & (((off - jj) % m) == 0) & (k < n)
+                else:
+                    raise Unsupported("symbolic stride store")
+                ks.append(k)
+        return cond, ks
+
+    def newfn(idx):
+        cond, ks = locate(idx)
+        val = st.coerce_elem(base, _value_at(eng, s, v, ks, snap), None)
+        if cond.concrete:
+            return val if cond.v else old_read(idx)
+        return merge_values(cond, val, old_read(idx))
+    # validate strides now (raises Unsupported early)
+    locate([SInt.fresh('probe') for _ in base.shape])
+    s.heap[base.id] = st.fn_content(newfn)
     if base.elem == 'int' and Mode.int_mode == 'math' and base.dtype in st.UNSIGNED_BITS:
-        # range obligation for every stored cell
         bits = st.UNSIGNED_BITS[base.dtype]
-        v0 = val
-        eng.oblige(fr, s, 'range', 'value-fits-dtype',
-                   SBool(z3.ForAll(js, z3.Implies(cz, z3.And(v0.z() >= 0, v0.z() < (1 << bits))))), lineno)
+
+        def fits(*js):
+            cond, ks = locate(list(js))
+            val = to_int(_value_at(eng, s, v, ks, snap))
+            return Implies(cond, And(val >= 0, val < SInt(1 << bits)))
+        eng.oblige(fr, s, 'range', 'value-fits-dtype', forall(['int'] * len(base.shape), fits), lineno)
 
 
 def load_fancy(eng, s, fr, arr, items, lineno):
@@ -761,18 +748,14 @@ def store_fancy(eng, s, fr, arr, items, v, lineno):
     _, off, stride, _n = d
     if len(arr.dims) != 1 or not (stride.concrete and stride.v == 1):
         raise Unsupported("masked store through a strided view")
-    j = z3.Const(fresh_name('mj'), int_sort())
-    k = SInt(j) - off
-    cond = And(k >= 0, k < n, hit(k)).z()
-    old = s.heap[base.id]
-    new = dict(old)
-    if base.elem == 'float':
-        new['val'] = z3.Lambda([j], z3.If(cond, val.val, z3.Select(old['val'], j)))
-        ot = old['tag'] if old['tag'] is not None else z3.K(int_sort(), z3.IntVal(FIN))
-        new['tag'] = z3.Lambda([j], z3.If(cond, val.ztag(), z3.Select(ot, j)))
-    else:
-        new['val'] = z3.Lambda([j], z3.If(cond, val.z(), z3.Select(old['val'], j)))
-    s.heap[base.id] = new
+    old_read = st.content_reader(base, s.heap[base.id])
+
+    def newfn(idx):
+        k = idx[0] - off
+        cond = And(k >= 0, k < n, hit(k))
+        return merge_values(cond, val, old_read(idx)) if not cond.concrete else (val if cond.v else old_read(idx))
+    s.heap[base.id] = st.fn_content(newfn)
+    st.name_content(s, base)
 
 
 # ---------------------------------------------------------------------- operations with assumed contracts
@@ -782,6 +765,8 @@ def compress(eng, s, fr, arr, mask, lineno):
     there is a strictly increasing index map pos[0..m) into arr hitting exactly the true cells."""
     n = arr.length()
     eng.oblige(fr, s, 'index', 'mask-length', mask.length() == n, lineno)
+    if mask.base.kind == 'sym':
+        st.name_content(s, mask.base)
     m = SInt.fresh('cnt')
     pos = z3.Function(fresh_name('pos'), z3.IntSort(), z3.IntSort())
     s.assume(And(m >= 0, m <= n))
@@ -796,8 +781,11 @@ def compress(eng, s, fr, arr, mask, lineno):
     s.assume(forall('int', lambda j: Implies(And(j >= 0, j < n, to_bool(cell(s, mask, j))),
                                             And(R(j) >= 0, R(j) < m, P(R(j)) == j)),
                     patterns=lambda j: [R(j)]))
+    # P is injective, so the rank of a selected position is its index in the result
+    s.assume(forall('int', lambda k: Implies(And(k >= 0, k < m), R(P(k)) == k), patterns=lambda k: [P(k)]))
     res = new_lambda_array(s, arr.elem, arr.base.dtype, m, lambda k: cell(s, arr, P(k)), 'compress')
     res.base.name = 'compress'
+    res.base.meta.update({'pos': P, 'rank': R, 'mask': mask, 'count': m})
     return res
 
 
